@@ -108,6 +108,12 @@ CLAIMED["C14"] = dict(
     text='Proved on the model; Merkle proofs are an oracle of the model and are checked on the implementation: every returned proof is verified with the real ProofRuntime against the app hash of EVERY committed height (must verify for the queried height and only for it).',
     note="Trusted: Coq kernel, extraction, OCaml/Go drivers, the crash-instrumented dbm.DB wrapper; tendermint/iavl v0.12.4 and tm-db are modelled by their contracts (one batch = one atomic write unit; IAVL node versions are not part of the model's hash). Known findings F8, F17a/b, F18a/b, F20 are listed in known_findings.json.",
     design_ref="§6 C14")
+CLAIMED["C01"] = dict(
+    engine="app",
+    technique="Coq proof (commit hash independent of the substore commit order; model functions) + replay of every history on fresh / restarted / read-only-interleaved instances of the implementation, comparing all responses and app hashes",
+    text="Proved: the app hash is a function of the name-sorted substore commit ids, so Go's map iteration order at Commit cannot reach it. Checked on the implementation: every generated history is replayed on a fresh instance, on an instance stopped after a random Commit and reopened from its DB, and with CheckTx/Simulate/Query traffic interleaved; codes, data, events, validator updates and app hashes must be identical; an uninterrupted twin multistore must commit identical hashes.",
+    note="Trusted: Coq kernel, Go drivers. That map order, the validator decode cache and the goroutine-driven IAVL iterator are the only nondeterminism sources is checked by the differential runs, not proved.",
+    design_ref="§6 C01")
 REASON_NOT_YET = "check not built yet in this round (design in DESIGN.md §6); will be claimed once its model, theorems and correspondence engine exist"
 
 def main():
